@@ -1084,6 +1084,8 @@ def rule_n(ctx, ix):
                     (isinstance(body, ast.Name) and body.id == arg)
                 ok = (whole and own_order) or 'axis' in attrs
                 how = 'key `%s`' % unparse(body)
+            elif unparse(key).replace(' ', '') in ('itemgetter(1)', 'operator.itemgetter(1)'):
+                ok, how = own_order, 'the components\' own ordering (itemgetter(1))'
             else:
                 ctx.idiom(R, f.construct, 'sort key recognised', accepted=False, absent=False, detail_absent='', shape=unparse(key))
                 continue
